@@ -157,6 +157,10 @@ func (e Engine) newDB(config dvid.StoreConfig) (*BadgerDB, bool, error) {
 		stopSyncCh: make(chan bool),
 	}
 
+	if !created && !opts.ReadOnly {
+		removeEmptyMemtables(path)
+	}
+
 	dvid.TimeInfof("Opening badger @ path %s\n", path)
 	bdp, err := badger.Open(*opts)
 	if err != nil {
@@ -179,6 +183,28 @@ func (e Engine) newDB(config dvid.StoreConfig) (*BadgerDB, bool, error) {
 	}
 
 	return badgerDB, !metadataExists, nil
+}
+
+// removeEmptyMemtables deletes zero-length memtable files.  Badger deletes a flushed memtable by
+// truncating its file to zero and then removing it, and creates one by making the file and then
+// sizing it, so a process killed in between leaves an empty NNNNN.mem that holds no data but
+// makes every later badger.Open fail ("Create a new file").
+func removeEmptyMemtables(path string) {
+	names, err := filepath.Glob(filepath.Join(path, "*.mem"))
+	if err != nil {
+		return
+	}
+	for _, name := range names {
+		fi, err := os.Stat(name)
+		if err != nil || !fi.Mode().IsRegular() || fi.Size() != 0 {
+			continue
+		}
+		if err := os.Remove(name); err != nil {
+			dvid.Errorf("Unable to remove empty memtable file %s: %v\n", name, err)
+		} else {
+			dvid.Infof("Removed empty memtable file %s left by an interrupted shutdown\n", name)
+		}
+	}
 }
 
 // ---- RepairableEngine interface not implemented ------
